@@ -71,15 +71,14 @@ PROPS = {
         functions=[CT + "Unit.__lt__"] + [CT + "Continuum." + m for m in (
             "__init__", "add", "add_annotator", "remove", "copy", "copy_flush", "merge", "__add__", "reset_bounds", "__iter__",
             "iter_annotator", "num_units", "num_annotators", "__len__", "__bool__", "annotators", "categories", "bounds",
-            "avg_num_annotations_per_annotator")],
+            "avg_num_annotations_per_annotator", "__eq__", "__ne__", "__getitem__#annotator")],
         oracles=[CT + "Continuum.merge"],
         bounded=[dict(oracle=CT + "Continuum.__eq__",
-                      what="__eq__ / __ne__ / __getitem__ / iterunits are not under contract (zip of two generators needs the "
-                           "canonical-enumeration induction): random operation histories (length <= 14, 3 annotators, labels incl. None, "
-                           "zero-length and duplicate segments) against a plain set-per-annotator model; also cross-checks every "
-                           "operation that IS proved")],
+                      what="__getitem__ by (annotator, index) and iterunits are not under contract; __eq__ / __ne__ are (exact characterisation) and are "
+                           "exercised here as well: random operation histories (add / add_annotator / remove / merge / copy / reset_bounds) replayed "
+                           "against a plain set-per-annotator model, equality checked for reflexivity, symmetry, transitivity and against the model")],
         design_ref="DESIGN.md section 4 C13, appendix A.6",
-        not_decided=["__eq__ is an equivalence on (annotators, units): bounded stand-in only",
+        not_decided=["__eq__ with an argument that is not a Continuum (returns False before anything is compared): not under contract",
                      "'any history' is the induction the per-operation contracts give: each operation requires RI and the whole old view "
                      "and ensures RI and the whole new view"],
         trusted=S_COMMON + ["model: sortedcontainers SortedSet / SortedDict incl. its enumeration invariant; precondition unit_order is "
